@@ -153,6 +153,10 @@ static int new_packet(int sk_fd, int can_socket) {
         cf_pdu = pdu;
     }
 
+    if ((uint64_t)res < proc_bytes + AVTP_COMMON_HEADER_LEN) {
+        return 0;
+    }
+
     subtype = Avtp_CommonHeader_GetSubtype((Avtp_CommonHeader_t*)cf_pdu);
     if (!((subtype == AVTP_SUBTYPE_NTSCF) ||
         (subtype == AVTP_SUBTYPE_TSCF))) {
@@ -161,10 +165,17 @@ static int new_packet(int sk_fd, int can_socket) {
 
     if (subtype == AVTP_SUBTYPE_TSCF){
         proc_bytes += AVTP_TSCF_HEADER_LEN;
+        if ((uint64_t)res < proc_bytes) return 0;
         msg_length = Avtp_Tscf_GetStreamDataLength((Avtp_Tscf_t*)cf_pdu);
     } else {
         proc_bytes += AVTP_NTSCF_HEADER_LEN;
+        if ((uint64_t)res < proc_bytes) return 0;
         msg_length = Avtp_Ntscf_GetNtscfDataLength((Avtp_Ntscf_t*)cf_pdu);
+    }
+
+    // The announced ACF data must lie within the received datagram
+    if (msg_length > (uint64_t)res - proc_bytes) {
+        return 0;
     }
 
     while (msg_proc_bytes < msg_length) {
@@ -172,6 +183,10 @@ static int new_packet(int sk_fd, int can_socket) {
         // Flags and data must not leak from one ACF message into the next
         memset(&frame, 0, sizeof(struct canfd_frame));
         acf_pdu = &pdu[proc_bytes + msg_proc_bytes];
+
+        if (msg_length - msg_proc_bytes < AVTP_CAN_HEADER_LEN) {
+            return 0;
+        }
 
         if (!is_valid_acf_packet(acf_pdu)) {
             return 0;
@@ -181,7 +196,17 @@ static int new_packet(int sk_fd, int can_socket) {
 
         can_payload = Avtp_Can_GetPayload((Avtp_Can_t*)acf_pdu);
         acf_msg_length = Avtp_Can_GetAcfMsgLength((Avtp_Can_t*)acf_pdu)*4;
-        can_payload_length = Avtp_Can_GetCanPayloadLength((Avtp_Can_t*)acf_pdu);
+
+        // The message must hold its own header and fit the remaining ACF data,
+        // and its payload must fit the CAN frame it is copied into
+        if (acf_msg_length < AVTP_CAN_HEADER_LEN + Avtp_Can_GetPad((Avtp_Can_t*)acf_pdu) ||
+            acf_msg_length > msg_length - msg_proc_bytes) {
+            return 0;
+        }
+        can_payload_length = acf_msg_length - AVTP_CAN_HEADER_LEN - Avtp_Can_GetPad((Avtp_Can_t*)acf_pdu);
+        if (can_payload_length > (can_variant == AVTP_CAN_FD ? CANFD_MAX_DLEN : CAN_MAX_DLEN)) {
+            return 0;
+        }
         msg_proc_bytes += acf_msg_length;
 
         // Handle EFF Flag
